@@ -1,10 +1,14 @@
 from common import T_COMMON
 
 CFG = dict(
+    gen=[dict(tool="facts", mode="c07.normals", out="StlNormals.lean")],
+    modules=["PolyVerif.Props.C07", "PolyVerif.Props.C07Normals"],
     theorems=["stl_length", "stl_roundtrip", "stl_roundtrip_trailing", "stl_count_wraps",
               "stl_reencode_prefix", "stl_reencode", "stl_decode_ok_iff", "stl_decode_short",
               "stl_roundtrip_exact", "chunks_eq_triples", "stl_mesh_roundtrip", "stl_mesh_roundtrip_partial", "stl_no_normals_witness",
-              "stl_geometric_normal_counterexample", "stl_mesh_nopos", "stl_mesh_oob"],
+              "stl_geometric_normal_counterexample", "stl_mesh_nopos", "stl_mesh_oob",
+              "stl_mesh_roundtrip_real", "stl_stored_normal_is_normalised_mean", "stl_fallback_normal_is_geometric",
+              "stl_stored_normal_returned"],
     streams=[dict(name="c07", n=dict(quick=250, thorough=6000))],
     trusted=T_COMMON + [
         "encoding/binary (struct layout of stl.Triangle: 12 float32 + uint16, no padding) — observed byte-exact against the model on every run",
